@@ -213,6 +213,25 @@ class Seq:
                 self.expect("dumpv L%d" % l3, "val b:1", "script-sees-host-value|equality")
             self.expect("efree %d" % eid, "ok", "free")
         self.had_roundtrip = True
+        # in-place update through the library-owned pointer (bloc_assign_*): the variable holds the new value, it is still the variable
+        # (a script that reads it twice does not consume it), and its type is unchanged
+        if v[0] in ("s", "x") and r.random() < 0.6:
+            nv = (v[0], r.choice([b"assigned", b"a", b"in place " * 20]))
+            if v[0] == "s": self.expect("v_assign_lit L%d %s" % (lid, nv[1].hex()), "1", "assign")
+            else: self.expect("v_assign_tab L%d %s" % (lid, nv[1].hex()), "1", "assign")
+            d["vars"][name] = nv
+            self.inspect("L%d" % lid, nv, "assign-in-place")
+            xid = self.nx; self.nx += 1
+            tag = self.nx
+            rd = "rq%d = %s; rw%d = %s; rz%d = %s.count();" % (tag, name.lower(), tag, name.lower(), tag, name.lower())
+            self.expect("pexec %d %d %s" % (c, xid, rd.encode().hex()), "ok", "parse"); self.bump(c)
+            self.expect("exec %d" % xid, "1", "run"); self.bump(c)
+            self.expect("xfree %d" % xid, "ok", "free")
+            l4 = self.nl; self.nl += 1
+            self.expect("load %d %d %d" % (c, sid, l4), "ok", "load")
+            self.expect("dumpv L%d" % l4, "val " + self.dump_of(nv), "assign-in-place|variable-consumed-by-read")
+            self.lptr = {k2: v2 for k2, v2 in self.lptr.items() if v2[0] != c}
+            self.lptr[l4] = (c, d["epoch"], nv)
 
     def a_script_write(self, c):
         r = self.r; d = self.ctx[c]
@@ -338,6 +357,30 @@ class Seq:
         self.expect("out %d" % c, "out " + b"ran\n".hex(), "run-after-reset-stop")
         self.expect("xfree %d" % xid, "ok", "free"); self.expect("xfree %d" % x2, "ok", "free")
 
+    def a_return_untaken(self, c):
+        """a returned value the host never takes stays owned by the library: it must go with the next return, with purge, or with the context"""
+        r = self.r
+        v = r.choice([("s", b"untaken " * 40), ("i", 77), ("s", b"u")])
+        xid = self.nx; self.nx += 1
+        self.expect("pexec %d %d %s" % (c, xid, ("return %s;" % self.lit(v)).encode().hex()), "ok", "parse"); self.bump(c)
+        self.expect("exec %d" % xid, "1", "run"); self.bump(c)
+        self.expect("rstop %d" % c, "ok", "reset")
+        self.expect("xfree %d" % xid, "ok", "free")
+        k = r.random()
+        if k < 0.4:
+            self.a_purge(c)
+        elif k < 0.7:
+            x2 = self.nx; self.nx += 1
+            self.expect("pexec %d %d %s" % (c, x2, "return 5;".encode().hex()), "ok", "parse"); self.bump(c)
+            self.expect("exec %d" % x2, "1", "run"); self.bump(c)
+            vid = self.nv; self.nv += 1
+            self.expect("drop %d %d" % (c, vid), "ok", "returned")
+            self.inspect("V%d" % vid, ("i", 5), "returned")
+            self.expect("v_free %d" % vid, "ok", "free")
+            self.expect("rstop %d" % c, "ok", "reset")
+            self.expect("xfree %d" % x2, "ok", "free")
+        # else: left in place until the context is freed
+
     def a_break(self, c):
         xid = self.nx; self.nx += 1
         self.expect("pexec %d %d %s" % (c, xid, 'print "never";'.encode().hex()), "ok", "parse"); self.bump(c)
@@ -427,7 +470,8 @@ class Seq:
             elif k < 0.48: self.a_script_write(c)
             elif k < 0.62: self.a_bad_parse(c)
             elif k < 0.72: self.a_runtime_error(c, E)
-            elif k < 0.80: self.a_return_value(c)
+            elif k < 0.77: self.a_return_value(c)
+            elif k < 0.80: self.a_return_untaken(c)
             elif k < 0.85: self.a_break(c)
             elif k < 0.91 and len(cs) < 4: self.a_clone(c)
             elif k < 0.95: self.a_purge(c)
